@@ -17,7 +17,7 @@ use crate::join::JoinHandle;
 use crate::scoped::spawn_unsafe;
 use crate::sync::Mutex;
 use crate::sync::{AtomicOption, Blocker};
-use crate::yield_now::yield_with;
+use crate::yield_now::{yield_now, yield_with};
 
 use may_queue::mpsc::Queue;
 
@@ -98,6 +98,10 @@ pub struct EventSender<'a> {
     extra: AtomicUsize,
     // the mpsc event queue to collect the events
     cqueue: &'a Cqueue,
+    // set while `subscribe` is running: once the event is published the poller may
+    // resume this coroutine on another thread, it must not finish (and let the
+    // cqueue go away) before `subscribe` has stopped using the cqueue
+    kernel: AtomicBool,
 }
 
 unsafe impl Send for EventSender<'_> {}
@@ -112,6 +116,10 @@ impl EventSender<'_> {
     pub fn send(&self, extra: usize) {
         let cancel = current_cancel_data();
         cancel.check_cancel();
+        // before a new yield wait until the previous `subscribe` has finished
+        while self.kernel.load(Ordering::Acquire) {
+            yield_now();
+        }
         self.extra.store(extra, Ordering::Relaxed);
         yield_with(self);
     }
@@ -119,6 +127,7 @@ impl EventSender<'_> {
 
 impl EventSource for EventSender<'_> {
     fn subscribe(&mut self, co: CoroutineImpl) {
+        self.kernel.store(true, Ordering::Release);
         self.cqueue.ev_queue.push(Event {
             id: self.id,
             token: self.token,
@@ -129,6 +138,7 @@ impl EventSource for EventSender<'_> {
         if let Some(w) = self.cqueue.to_wake.take() {
             w.unpark();
         }
+        self.kernel.store(false, Ordering::Release);
     }
 
     fn yield_back(&self, _cancel: &'static Cancel) {
@@ -139,6 +149,18 @@ impl EventSource for EventSender<'_> {
 impl Drop for EventSender<'_> {
     // when the select coroutine finished will trigger this drop
     fn drop(&mut self) {
+        // wait until the last `subscribe` has finished with the cqueue
+        if self.kernel.load(Ordering::Acquire) {
+            // the Done event below must be sent in any case: this wait must not
+            // raise the Cancel panic, also not when the cqueue cancels us while
+            // we are unwinding from a panic of our own
+            let cancel = current_cancel_data();
+            cancel.disable_cancel();
+            while self.kernel.load(Ordering::Acquire) {
+                yield_now();
+            }
+            cancel.enable_cancel();
+        }
         self.cqueue.ev_queue.push(Event {
             id: self.id,
             token: self.token,
@@ -182,6 +204,7 @@ impl Cqueue {
             token,
             extra: 0.into(),
             cqueue: self,
+            kernel: AtomicBool::new(false),
         };
         let h = unsafe { spawn_unsafe(move || f(sender)) };
         let co = h.coroutine().clone();
